@@ -108,9 +108,14 @@ package rp
 
 // Start handler: one state value goes into the cookie and into the authorization URL; with PKCE the
 // challenge in the URL is the one whose verifier was stored.
+// (the per-request option slice is the handler's own: appending to it must not write into storage
+// shared with other requests)
 //@ func rp.AuthURLHandler$1
 //@   requires !Resp_written[w] && valid(w) && valid(r)
+//@   modifies Resp_written[w], Resp_status[w], Resp_location[w], Resp_body[w], os(w)
 //@   ensures one-state: called("rp.AuthURL") ==> callarg("rp.AuthURL", 0) == callres("dyn:*stateFn", 0)
 //@        && callarg("rp.trySetStateCookie", 1) == callres("dyn:*stateFn", 0) && callres("rp.trySetStateCookie", 0) == nil
 //@   ensures pkce-challenge: called("rp.AuthURL") && rp.IsPKCE() ==> called("rp.GenerateAndStoreCodeChallenge") && callres("rp.GenerateAndStoreCodeChallenge", 1) == nil
 //@        && callarg("rp.WithCodeChallenge", 0) == callres("rp.GenerateAndStoreCodeChallenge", 0)
+//@ loop rp.AuthURL#1
+//@   invariant own-storage: fresh(authOpts)
